@@ -51,6 +51,10 @@ CHECKS = {
             "constructor tables regenerated from the live loader class into Lean on every run and table_safe re-proved by kernel computation (decide +kernel); Lean induction over document trees for the dispatch model; canary documents loaded in a child process as correspondence and failing-input search",
             "For the regenerated table of the loader class that core.config.load really uses: no python/* tag registered, no prefix constructors, unknown tags fall to construct_undefined, every entry a SafeConstructor method of a standard tag or a plugin constructor of the entry-point group; hence (theorems, any document depth) a python/* or unregistered tag anywhere makes loading fail and only registered constructors ever run. Tied to the code by regeneration (translator from the live class) plus documents with side-effect canaries.",
             "Trusted: Lean kernel + standard axioms; harness/vh/tables.py (introspection translator); PyYAML scanner/parser/composer and the modelled construct_object dispatch order; canaries."),
+    "C09": ("§6 C09",
+            "Lean 4 theorems about the act/sleep loops on a virtual clock (wake times, count per span, LinearController drift bound from the C08 step bound, Buffer quiet/flush) + differential correspondence of every shipped service under trio's MockClock with the observed event order passed to the model + oracle on the recorded timeline",
+            "Partial: the trio clock contract (a sleep of d ends d later, bodies take no virtual time) is an assumption. Under it: first step immediately then exactly one per interval forever (FactoryPool: after each interval), demand drift of a LinearController <= rate x (span + interval), a Buffer forwards nothing between boundaries and at each boundary the target gets the last written value — Lean theorems; tied to the run() methods of linear/relative_supply/stepwise/switch/buffer/factory by MockClock runs whose event timelines (times as exact rationals) are compared with the model.",
+            "Trusted: Lean kernel + standard axioms; model; trio 0.34 MockClock semantics (assumed); real-time scheduling latency is not modelled."),
 }
 
 PENDING_REASON = "check not built yet in this session (planned: Lean model + proof + correspondence, see DESIGN.md work order); not claimed until its check exists"
